@@ -9,10 +9,12 @@ def run(ctx):
     q = ctx.quick()
     vlib.standard_run(
         ctx,
-        mc=[("MC_Throttle", "MC_Throttle_flow.cfg", 8 if q else 14, 900), ("MC_Throttle", "MC_Throttle_hot.cfg", 8 if q else 14, 900)],
+        mc=[("MC_Throttle", "MC_Throttle_flow.cfg", 8 if q else 14, 900), ("MC_Throttle", "MC_Throttle_hot.cfg", 8 if q else 14, 900),
+            ("MC_Throttle", "MC_Throttle_two.cfg", 8 if q else 14, 900)],
         goals=("MC_Throttle", "MC_Throttle_hot.cfg", ["GoalQueued", "GoalHotQueued"]),
         gens=[("MC_Throttle", "Gen_Throttle_flow.cfg", None, 2000 if q else 40000),
               ("MC_Throttle", "Gen_Throttle_hot.cfg", None, 2000 if q else 40000),
+              ("MC_Throttle", "Gen_Throttle_two.cfg", None, 1500 if q else 30000),
               ("MC_Throttle", "Gen_Throttle_sim.cfg", "num=%d" % (300 if q else 6000), 300 if q else 6000)],
         trace=TRACE,
         drives=[["world-drive", "--prop", "c07", "--hist", 300 if q else 6000, "--len", 40]],
@@ -36,6 +38,6 @@ def evidence(ctx):
         "virtual time: a virtual sleep advances the clock by exactly what the slot asked for; one wall-clock sleep per run binds it to the real function",
         "a wait exactly equal to the maximum queueing time may be queued or rejected; hotspot batch > threshold may be scheduled",
         "1 ns slack on the hold (floor of the f64 interval)",
-        "at most one flow throttling and one hotspot throttling rule per resource in these histories",
+        "one or two flow throttling rules (consulted one after the other, in an order TLC infers) and at most one hotspot throttling rule per resource",
     ]
     vlib.write_evidence(ctx)
